@@ -82,9 +82,15 @@ void h_decode_size(void) {
   CANARY();
 }
 
+#ifndef SNP_MAX_IN
+#define SNP_MAX_IN 8
+#define SNP_MAX_OUT 16
+#endif
 void h_decode_blocks(void) {
   IN_SIZE(in_zn); IN_SIZE(in_n); IN_BUF(buf, in_n); SNAP_BUF(buf, in_n);
-  uint8_t *out = malloc(in_zn); /* exactly zn bytes, zp at the start of the object: any write outside [zp, zp+zn) and any back-reference before zp is out of bounds */
+  uint8_t *out;
+  ASSUME(in_n <= SNP_MAX_IN && in_zn <= SNP_MAX_OUT); /* BOUNDED: see units/snp.json */
+  out = malloc(in_zn); /* exactly zn bytes, zp at the start of the object: any write outside [zp, zp+zn) and any back-reference before zp is out of bounds */
   int r;
   ASSUME(out != NULL);
   r = decode_blocks(out, in_zn, buf, in_n);
